@@ -132,6 +132,7 @@ func main() {
 	a := hx.ParseArgs()
 	hx.Must(log.InitLogger(log.Config{Level: "fatal", Format: "console", Color: "disable"}))
 	run := hx.NewRun(a.Dir)
+	scratchBase = a.Dir
 	defer run.Close()
 	var ce *cer
 	var xn *xnet
